@@ -6,6 +6,8 @@ full-period round trip and Parseval under both normalisation flags; out= buffer.
 """
 import numpy as np
 
+from vp.gen import layout as gen_layout
+
 from vp import probe, refmodels as rm
 
 RULE = ('seeded generator over input shape (1x1..24x24 quick / ..64 thorough; even, odd, non-square), '
@@ -254,6 +256,7 @@ def workload(ctx, lentil):
             shape_arg = None
         kwargs = dict(shape=shape_arg, shift=shift, offset=list(offset) if form == 1 else offset,
                       unitary=unitary)
+        f = gen_layout(rng, f)                            # same values, any memory layout (F order, strided views)
         fresh = dft2(f, alpha_arg, **kwargs)             # probe checks against the sum
         if i % 6 == 0:
             # the same call with every argument passed by position (the documented order)
